@@ -29,7 +29,9 @@ const M: u64 = 1024 * 1024;
 struct Obs {
     code: i64,
     done: usize,
-    cnts: [u64; 5],
+    /// the five counters; None when BudgetStats could not be read (stats() itself panics when the
+    /// sum of the counters overflows usize)
+    cnts: Option<[u64; 5]>,
 }
 struct Run {
     lim: u64,
@@ -41,7 +43,11 @@ struct Run {
 fn run_case(limreq: u64, progs: &[Vec<Op>], sched: &[usize]) -> Run {
     let b = Arc::new(MemoryBudget::with_limit(limreq as usize));
     let n = progs.len();
-    let s = Scheduler::new(n);
+    let mut s = Scheduler::new(n);
+    // The unchanged allocate / release never block (lock-free), so a step always ends at a hook
+    // site or at the end of the program; the scheduler's 60 ms "blocked" verdict would only ever
+    // be a false one (observed with the machine at load 180), hence the long timeout.
+    Arc::get_mut(&mut s).expect("fresh scheduler").block_timeout = std::time::Duration::from_secs(30);
     s.install();
     let results: Vec<Arc<Mutex<Vec<i128>>>> = (0..n).map(|_| Arc::new(Mutex::new(vec![]))).collect();
     let mut hs = vec![];
@@ -91,10 +97,12 @@ fn run_case(limreq: u64, progs: &[Vec<Op>], sched: &[usize]) -> Run {
             StepOutcome::Blocked => 2,
             StepOutcome::Reached(site) => site as i64,
         };
-        let st = b.stats();
+        let cnts = catch_unwind(AssertUnwindSafe(|| b.stats()))
+            .ok()
+            .map(|st| [st.cache_used as u64, st.query_used as u64, st.recovery_used as u64, st.schema_used as u64, st.shared_used as u64]);
         let done = results[t].lock().unwrap().len();
         exec.push(t);
-        obs.push(Obs { code, done, cnts: [st.cache_used as u64, st.query_used as u64, st.recovery_used as u64, st.schema_used as u64, st.shared_used as u64] });
+        obs.push(Obs { code, done, cnts });
     };
     for &t in sched {
         do_step(t);
@@ -109,7 +117,7 @@ fn run_case(limreq: u64, progs: &[Vec<Op>], sched: &[usize]) -> Run {
             }
         }
         if guard > 5000 {
-            eprintln!("c39: threads do not finish: {} states {:?} last obs {:?}", replay_line(limreq, progs, sched), (0..n).map(|i| s.state(i)).collect::<Vec<_>>(), obs.iter().take(12).map(|o| (o.code, o.done)).collect::<Vec<_>>());
+            eprintln!("c39: threads do not finish: {} states {:?} last obs {:?}", replay_line(limreq, progs, sched), (0..n).map(|i| s.state(i)).collect::<Vec<_>>(), obs.iter().rev().take(8).map(|o| (o.code, o.done)).collect::<Vec<_>>());
             std::process::exit(3);
         }
     }
@@ -196,7 +204,10 @@ fn case_term(limreq: u64, progs: &[Vec<Op>], r: &Run) -> String {
     let os: Vec<String> = r
         .obs
         .iter()
-        .map(|o| format!("({},{},[{};{};{};{};{}])", o.code, o.done, o.cnts[0], o.cnts[1], o.cnts[2], o.cnts[3], o.cnts[4]))
+        .map(|o| match o.cnts {
+            Some(c) => format!("({},{},[{};{};{};{};{}])", o.code, o.done, c[0], c[1], c[2], c[3], c[4]),
+            None => format!("({},{},[])", o.code, o.done),
+        })
         .collect();
     let rs: Vec<String> = r.results.iter().map(|v| clist(&v.iter().map(|x| z(*x)).collect::<Vec<_>>())).collect();
     format!("Case {} {} {} {}%nat {} {}", limreq, r.lim, clist(&ps), clist(&ss), clist(&os), clist(&rs))
@@ -251,7 +262,8 @@ fn judge(progs: &[Vec<Op>], r: &Run) -> Verdict {
                 _ => {}
             }
         }
-        let total: u128 = o.cnts.iter().map(|x| *x as u128).sum();
+        // unreadable counters = their sum overflowed usize, which is above any limit
+        let total: u128 = match o.cnts { Some(c) => c.iter().map(|x| *x as u128).sum(), None => u128::MAX };
         v.peak = v.peak.max(total.min(u64::MAX as u128) as u64);
         if total > r.lim as u128 && v.ok {
             v.ok = false;
@@ -272,10 +284,12 @@ fn judge(progs: &[Vec<Op>], r: &Run) -> Verdict {
                 3
             };
         }
-        for p in 0..5 {
-            if !taint[p] && o.cnts[p] as u128 != bal[p] && v.ok {
-                v.ok = false;
-                v.class = 4;
+        if let Some(c) = o.cnts {
+            for p in 0..5 {
+                if !taint[p] && c[p] as u128 != bal[p] && v.ok {
+                    v.ok = false;
+                    v.class = 4;
+                }
             }
         }
         if o.code == 100 {
@@ -482,6 +496,13 @@ fn random_case(rng: &mut Rng, thorough: bool) -> CaseIn {
 
 fn main() {
     let a = Args::parse();
+    // panics of the budget's worker threads are expected observations (overflow checks); a panic of
+    // the harness itself must be visible
+    std::panic::set_hook(Box::new(|info| {
+        if std::thread::current().name() == Some("main") {
+            eprintln!("c39 harness panic: {}", info);
+        }
+    }));
     match a.mode.as_str() {
         "gen" => gen(&a),
         "search" => search(&a),
@@ -505,7 +526,7 @@ fn gen(a: &Args) {
         }
     } else {
         cases = enumerated(!a.thorough());
-        let nrand = if a.thorough() { 60_000 } else { 3_000 };
+        let nrand = if a.thorough() { 40_000 } else { 1_200 };
         for _ in 0..nrand {
             cases.push(random_case(&mut rng, a.thorough()));
         }
